@@ -111,7 +111,7 @@ Proof.
   - destruct (wfail (set_txid s v')) eqn:Ef.
     + specialize (Hfin (set_wctl (set_txid s v') false 0) (RErr ReIo) [OStamp tx (rq_id r); OWireFail tx (rq_id r)]).
       destruct (finish _ r (RErr ReIo)) as [s' o]. apply Hfin; reflexivity.
-    + destruct (wdelay (set_txid s v') =? 0).
+    + destruct (write_now (set_txid s v')).
       * split; [right; rewrite E; split; reflexivity|]. split.
         -- unfold waiting. cbn. rewrite Hp. cbn. apply subseq_refl.
         -- right. exists r, tx, (now (set_txid s v') + rq_timeout r). split; [reflexivity|]. split; [reflexivity|]. split; [reflexivity|].
@@ -215,9 +215,18 @@ Proof.
   - pose proof (finish_summary s r (RErr e)) as H. destruct (finish s r (RErr e)) as [s' o]. by_summary H.
 Qed.
 
+Lemma written_laws s r tx u : ph s = PWriting r tx u -> let '(s', o) := written s r tx in laws s s' o [].
+Proof.
+  intros Eph. unfold written. split; [left; split; reflexivity|]. split.
+  * unfold fifo_law, waiting. cbn. rewrite Eph. cbn. rewrite app_nil_r. apply subseq_refl.
+  * right. exists r, tx, (now s + rq_timeout r). split; [reflexivity|]. split; [reflexivity|]. split; [reflexivity|].
+    split; [right; exists u; exact Eph|]. split; [reflexivity|]. split; [|intros X; rewrite Eph in X; discriminate].
+    intros tx' id' [X|[]]. inversion X; auto.
+Qed.
+
 Theorem step_laws s e : let '(s', o) := step cfg s e in laws s s' o (submitted_of e).
 Proof.
-  destruct e as [c st| | |ok|tx k|tx k| | | | | |dt| |dt|]; cbn [step submitted_of].
+  destruct e as [c st| | |ok|tx k|tx k| | | | | |dt| |dt| | |k| ]; cbn [step submitted_of].
   - (* submit *)
     assert (Hsub : submitted_of (EvSubmit c st) = queued [c]) by (destruct c; reflexivity).
     cbn [submitted_of] in Hsub. rewrite Hsub. clear Hsub.
@@ -279,12 +288,9 @@ Proof.
   - apply laws_nochange; reflexivity.
   - (* timer *)
     destruct (ph s) eqn:Eph; try (apply laws_nochange; reflexivity).
-    + destruct (fire cfg until <=? now s); [|apply laws_nochange; reflexivity].
-      split; [left; split; reflexivity|]. split.
-      * unfold fifo_law, waiting. cbn. rewrite Eph. cbn. rewrite app_nil_r. apply subseq_refl.
-      * right. exists r, tx, (now s + rq_timeout r). split; [reflexivity|]. split; [reflexivity|]. split; [reflexivity|].
-        split; [right; exists until; exact Eph|]. split; [reflexivity|]. split; [|intros X; rewrite Eph in X; discriminate].
-        intros tx' id' [X|[]]. inversion X; auto.
+    + destruct (Nat.eqb (wpark s) 0 && (fire cfg until <=? now s)); [apply (written_laws s r tx until Eph)|].
+      destruct (fire cfg (wdl s) <=? now s); [|apply laws_nochange; reflexivity].
+      pose proof (finish_summary s r (RErr write_timeout_error)) as H. destruct (finish s r (RErr write_timeout_error)) as [s' o]. by_summary H.
     + destruct (fire cfg deadline <=? now s); [|apply laws_nochange; reflexivity].
       pose proof (finish_summary s r (RErr deadline_error)) as H. destruct (finish s r (RErr deadline_error)) as [s' o]. by_summary H.
     + destruct (fire cfg until <=? now s); [|apply laws_nochange; reflexivity].
@@ -293,6 +299,14 @@ Proof.
   - (* abort *)
     destruct (ph s) eqn:Eph; try (pose proof (crash_summary s) as H; destruct (crash s) as [s' o]; by_summary H).
     apply laws_nochange; reflexivity.
+  - apply laws_nochange; reflexivity.
+  - apply laws_nochange; reflexivity.
+  - (* release *)
+    destruct (wpark s) as [|n]; [apply laws_nochange; reflexivity|]. cbn [ph set_wpark].
+    destruct (ph s) eqn:Eph; try (apply laws_nochange; reflexivity).
+    destruct (Nat.eqb n 0 && _); [|apply laws_nochange; reflexivity].
+    pose proof (written_laws (set_wpark s n) r tx until Eph) as H. destruct (written (set_wpark s n) r tx) as [s' o].
+    eapply laws_pre_state; [| | | |exact H]; reflexivity.
 Qed.
 
 
@@ -311,7 +325,7 @@ Proof.
   - destruct (wfail (set_txid s v')).
     + pose proof (finish_summary (set_wctl (set_txid s v') false 0) r (RErr ReIo)) as H. destruct (finish _ r (RErr ReIo)) as [s' o].
       apply enters_nil; exact (proj1 H).
-    + destruct (wdelay (set_txid s v') =? 0).
+    + destruct (write_now (set_txid s v')).
       * intros r0 tx0 d0 H. cbn in H. inversion H; subst. right. reflexivity.
       * intros r0 tx0 d0 H. discriminate H.
   - pose proof (finish_summary (set_txid s v') r (RErr ReBadRequest)) as H. destruct (finish _ r (RErr ReBadRequest)) as [s' o].
@@ -359,7 +373,7 @@ Qed.
 
 Theorem step_enters s e : let '(s', o) := step cfg s e in enters s s' o.
 Proof.
-  destruct e as [c st| | |ok|tx k|tx k| | | | | |dt| |dt|]; cbn [step]; try (apply enters_same; reflexivity).
+  destruct e as [c st| | |ok|tx k|tx k| | | | | |dt| |dt| | |k| ]; cbn [step]; try (apply enters_same; reflexivity).
   - destruct (Nat.eqb (handles s) 0); [apply enters_same; reflexivity|].
     destruct (ph s) eqn:Eph; try (apply enters_same; reflexivity);
     (destruct (_ && _); [apply enters_same; reflexivity|]; destruct st; apply enters_same; reflexivity).
@@ -397,13 +411,19 @@ Proof.
     + pose proof (end_session_summary s SeIoError) as H. cbn [from_request_err]. destruct (end_session s SeIoError) as [s' o]. rewrite Eph in H. apply enters_nil; exact (proj1 (H eq_refl)).
     + pose proof (finish_summary s r (RErr ReIo)) as H. destruct (finish s r _) as [s' o]. apply enters_nil; exact (proj1 H).
   - destruct (ph s) eqn:Eph; try (apply enters_same; reflexivity).
-    + destruct (fire cfg until <=? now s); [|apply enters_same; reflexivity]. intros r0 tx0 d0 H. cbn in H. inversion H; subst. right. reflexivity.
+    + destruct (Nat.eqb (wpark s) 0 && (fire cfg until <=? now s)); [intros r0 tx0 d0 H; cbn in H; inversion H; subst; right; reflexivity|].
+      destruct (fire cfg (wdl s) <=? now s); [|apply enters_same; reflexivity].
+      pose proof (finish_summary s r (RErr write_timeout_error)) as H. destruct (finish s r _) as [s' o]. apply enters_nil; exact (proj1 H).
     + destruct (fire cfg deadline <=? now s); [|apply enters_same; reflexivity].
       pose proof (finish_summary s r (RErr deadline_error)) as H. destruct (finish s r _) as [s' o]. apply enters_nil; exact (proj1 H).
     + destruct (fire cfg until <=? now s); [|apply enters_same; reflexivity].
       pose proof (loop_top_summary s) as H. destruct (loop_top s) as [s' o]. apply enters_nil; exact (proj1 H).
   - destruct (ph s) eqn:Eph; try (pose proof (crash_summary s) as H; destruct (crash s) as [s' o]; apply enters_nil; exact (proj1 H)).
     apply enters_same. reflexivity.
+  - destruct (wpark s) as [|n]; [apply enters_same; reflexivity|]. cbn [ph set_wpark].
+    destruct (ph s) eqn:Eph; try (apply enters_same; reflexivity).
+    destruct (Nat.eqb n 0 && _); [|apply enters_same; reflexivity].
+    intros r0 tx0 d0 H. cbn in H. inversion H; subst. right. reflexivity.
 Qed.
 
 
@@ -422,7 +442,7 @@ Proof.
   - destruct (wfail (set_txid s v')).
     + pose proof (finish_summary (set_wctl (set_txid s v') false 0) r (RErr ReIo)) as H. destruct (finish _ r (RErr ReIo)) as [s' o].
       apply entersw_nil; exact (proj1 H).
-    + destruct (wdelay (set_txid s v') =? 0).
+    + destruct (write_now (set_txid s v')).
       * intros r0 tx0 d0 H. discriminate H.
       * intros r0 tx0 d0 H. cbn in H. inversion H; subst. right. left. reflexivity.
   - pose proof (finish_summary (set_txid s v') r (RErr ReBadRequest)) as H. destruct (finish _ r (RErr ReBadRequest)) as [s' o].
@@ -470,7 +490,7 @@ Qed.
 
 Theorem step_entersw s e : let '(s', o) := step cfg s e in entersw s s' o.
 Proof.
-  destruct e as [c st| | |ok|tx k|tx k| | | | | |dt| |dt|]; cbn [step]; try (apply entersw_same; reflexivity).
+  destruct e as [c st| | |ok|tx k|tx k| | | | | |dt| |dt| | |k| ]; cbn [step]; try (apply entersw_same; reflexivity).
   - destruct (Nat.eqb (handles s) 0); [apply entersw_same; reflexivity|].
     destruct (ph s) eqn:Eph; try (apply entersw_same; reflexivity);
     (destruct (_ && _); [apply entersw_same; reflexivity|]; destruct st; apply entersw_same; reflexivity).
@@ -508,13 +528,19 @@ Proof.
     + pose proof (end_session_summary s SeIoError) as H. cbn [from_request_err]. destruct (end_session s SeIoError) as [s' o]. rewrite Eph in H. apply entersw_nil; exact (proj1 (H eq_refl)).
     + pose proof (finish_summary s r (RErr ReIo)) as H. destruct (finish s r _) as [s' o]. apply entersw_nil; exact (proj1 H).
   - destruct (ph s) eqn:Eph; try (apply entersw_same; reflexivity).
-    + destruct (fire cfg until <=? now s); [|apply entersw_same; reflexivity]. intros r0 tx0 d0 H. discriminate H.
+    + destruct (Nat.eqb (wpark s) 0 && (fire cfg until <=? now s)); [intros r0 tx0 d0 H; discriminate H|].
+      destruct (fire cfg (wdl s) <=? now s); [|apply entersw_same; reflexivity].
+      pose proof (finish_summary s r (RErr write_timeout_error)) as H. destruct (finish s r _) as [s' o]. apply entersw_nil; exact (proj1 H).
     + destruct (fire cfg deadline <=? now s); [|apply entersw_same; reflexivity].
       pose proof (finish_summary s r (RErr deadline_error)) as H. destruct (finish s r _) as [s' o]. apply entersw_nil; exact (proj1 H).
     + destruct (fire cfg until <=? now s); [|apply entersw_same; reflexivity].
       pose proof (loop_top_summary s) as H. destruct (loop_top s) as [s' o]. apply entersw_nil; exact (proj1 H).
   - destruct (ph s) eqn:Eph; try (pose proof (crash_summary s) as H; destruct (crash s) as [s' o]; apply entersw_nil; exact (proj1 H)).
     apply entersw_same. reflexivity.
+  - destruct (wpark s) as [|n]; [apply entersw_same; reflexivity|]. cbn [ph set_wpark].
+    destruct (ph s) eqn:Eph; try (apply entersw_same; reflexivity).
+    destruct (Nat.eqb n 0 && _); [|apply entersw_same; reflexivity].
+    intros r0 tx0 d0 H. discriminate H.
 Qed.
 
 End Laws.
@@ -558,7 +584,7 @@ Proof.
   assert (Hfin : forall s0 res, let '(s', o) := finish s0 r res in In (rq_id r) (completed o)).
   { intros s0 res. pose proof (finish_summary s0 r res) as H. destruct (finish s0 r res) as [s' o].
     destruct H as (_ & _ & _ & _ & _ & [(_ & _ & _ & ->)|(_ & _ & _ & ->)]); left; reflexivity. }
-  destruct e as [c st| | |ok|tx' k|tx' k| | | | | |dt| |dt|]; cbn [step]; rewrite ?Eph; cbn [listens reading]; auto.
+  destruct e as [c st| | |ok|tx' k|tx' k| | | | | |dt| |dt| | |k| ]; cbn [step]; rewrite ?Eph; cbn [listens reading]; auto.
   - destruct (Nat.eqb (handles s) 0); [auto|]. cbn [fst snd]. destruct (_ && _); [left; exact Eph|]. destruct st; left; exact Eph.
   - destruct (partial s); [auto|]. unfold on_frame. rewrite Eph. destruct (tx' =? tx); [|auto].
     specialize (Hfin s (respond k)). destruct (finish s r (respond k)). auto.
@@ -570,6 +596,7 @@ Proof.
   - unfold on_read_error. rewrite Eph. specialize (Hfin s (RErr ReIo)). destruct (finish s r _). auto.
   - destruct (fire cfg d <=? now s); [|auto]. specialize (Hfin s (RErr deadline_error)). destruct (finish s r _). auto.
   - unfold crash. rewrite Eph. cbn. right. rewrite completed_cons. left. reflexivity.
+  - destruct (wpark s) as [|n]; [auto|]. cbn [ph set_wpark]. rewrite Eph. auto.
 Qed.
 
 End Runs.
